@@ -260,6 +260,56 @@ fn stripped(msg: &[u8], t: &RawTsig) -> Vec<u8> {
     m
 }
 
+/// The message as the verifier hands it on: without its TSIG record
+/// (original id restored); unsigned messages as they are. `None` if the
+/// TSIG record is malformed or misplaced.
+pub(super) fn strip_tsig(msg: &[u8]) -> Option<(Vec<u8>, bool)> {
+    match scan(msg) {
+        Scan::None => Some((msg.to_vec(), false)),
+        Scan::One(t) => Some((stripped(msg, &t), true)),
+        _ => None,
+    }
+}
+
+/// Do two messages carry the same signed content: equal octets before the
+/// TSIG record and equal TSIG fields, with key and algorithm names compared
+/// in canonical form (RFC 8945 section 4.3.3 digests them in canonical wire
+/// format, so a change of case there is not a change of the message)?
+pub(super) fn same_signed_content(a: &[u8], b: &[u8]) -> bool {
+    match (scan(a), scan(b)) {
+        (Scan::One(x), Scan::One(y)) => {
+            a[..x.rr_start] == b[..y.rr_start]
+                && a.len() == b.len()
+                && x.owner == y.owner
+                && x.class == y.class
+                && x.ttl == y.ttl
+                && x.alg == y.alg
+                && x.time == y.time
+                && x.fudge == y.fudge
+                && x.mac == y.mac
+                && x.orig_id == y.orig_id
+                && x.error == y.error
+                && x.other == y.other
+        }
+        _ => a == b,
+    }
+}
+
+/// A drawn in-transit corruption of a signed message that no honest
+/// forwarder performs (for the transport-level scenario).
+pub(super) fn corrupt_in_transit(msg: &[u8]) -> (Vec<u8>, &'static str) {
+    let m = match sim::draw("mitm.kind", 7) {
+        0 | 1 => Mutation::BitFlip(sim::draw("mitm.flip_pos", msg.len().max(1) as u64) as usize, sim::draw("mitm.flip_bit", 8) as u8),
+        2 => Mutation::MacFlip,
+        3 => Mutation::DropTsig,
+        4 => Mutation::MacLengthen(1 + sim::draw("mitm.mac_extra", 8) as usize),
+        5 => Mutation::TimeShift(*sim::pick("mitm.time_shift", &[100_000i64, -100_000])),
+        _ => Mutation::OrigIdChange,
+    };
+    let out = mutate(msg, &m);
+    (out, mutation_stat(&m))
+}
+
 fn mac_with_len(mac: &[u8]) -> Vec<u8> {
     let mut v = (mac.len() as u16).to_be_bytes().to_vec();
     v.extend(mac);
@@ -442,6 +492,8 @@ enum Mutation {
     TsigNotLast,
     MacFlip,
     MacShorten(usize),
+    /// Extra octets appended to the MAC (MAC size and RDLENGTH adjusted).
+    MacLengthen(usize),
     TimeShift(i64),
     FudgeChange,
     KeyNameCase,
@@ -502,16 +554,20 @@ fn mutate(msg: &[u8], m: &Mutation) -> Vec<u8> {
                 }
             }
         }
-        Mutation::MacShorten(n) => {
-            // Rebuild the RR with a MAC truncated to n octets.
+        Mutation::MacShorten(_) | Mutation::MacLengthen(_) => {
+            // Rebuild the RR with a MAC truncated to n octets / with n more.
             if let (Some(t), Some((type_pos, _, _))) = (&t, offs) {
-                let keep = (*n).min(t.mac.len());
+                let mac: Vec<u8> = match m {
+                    Mutation::MacShorten(n) => t.mac[..(*n).min(t.mac.len())].to_vec(),
+                    Mutation::MacLengthen(n) => t.mac.iter().copied().chain((0..*n).map(|i| (i as u8).wrapping_mul(37))).collect(),
+                    _ => unreachable!(),
+                };
                 let mut rd = Vec::new();
                 rd.extend(&t.alg);
                 rd.extend(time48(t.time));
                 rd.extend(t.fudge.to_be_bytes());
-                rd.extend((keep as u16).to_be_bytes());
-                rd.extend(&t.mac[..keep]);
+                rd.extend((mac.len() as u16).to_be_bytes());
+                rd.extend(&mac);
                 rd.extend(t.orig_id.to_be_bytes());
                 rd.extend(t.error.to_be_bytes());
                 rd.extend((t.other.len() as u16).to_be_bytes());
@@ -564,7 +620,7 @@ fn mutate(msg: &[u8], m: &Mutation) -> Vec<u8> {
 }
 
 fn gen_mutation(len: usize, fudge: u16) -> Mutation {
-    match sim::draw("chan.mutation", 22) {
+    match sim::draw("chan.mutation", 23) {
         0..=5 => Mutation::None,
         6 => Mutation::BitFlip(sim::draw("chan.flip_pos", len as u64) as usize, sim::draw("chan.flip_bit", 8) as u8),
         7 => Mutation::Truncate(sim::draw("chan.trunc", len as u64) as usize),
@@ -581,6 +637,7 @@ fn gen_mutation(len: usize, fudge: u16) -> Mutation {
         18 => Mutation::AlgOther,
         19 => Mutation::OrigIdChange,
         20 => Mutation::ClassChange,
+        21 => Mutation::MacLengthen(1 + sim::draw("chan.mac_extra", 32) as usize),
         _ => Mutation::BitFlip(sim::draw("chan.flip_pos", len as u64) as usize, sim::draw("chan.flip_bit", 8) as u8),
     }
 }
@@ -596,6 +653,7 @@ fn mutation_stat(m: &Mutation) -> &'static str {
         Mutation::TsigNotLast => "fault.tsig_not_last",
         Mutation::MacFlip => "fault.mac_flip",
         Mutation::MacShorten(_) => "fault.mac_shortened",
+        Mutation::MacLengthen(_) => "fault.mac_lengthened",
         Mutation::TimeShift(_) => "fault.time_rewritten",
         Mutation::FudgeChange => "fault.fudge_rewritten",
         Mutation::KeyNameCase => "fault.key_name_case",
